@@ -29,7 +29,8 @@ RULE = ("world = seeded ar archive (0..6 members, GNU or BSD short names incl. d
         "object and/or by file name; trace = seeded interleaving of read/readline/readlines/"
         "seek/tell calls (<= 60) across all member handles; an evaluation is one run; "
         "distinct = distinct (actor, op) sequence hash; non-trivial = at least two different "
-        "member handles were operated on and at least one call returned data")
+        "member handles were operated on and at least one call returned data"
+        '; later additions: handles through getmember / [] / full and abandoned iteration / extractfile, listing before or after the clients, an earlier archive at the same path with a live reader, members of up to 70 KiB, names of 16 characters and with non-ASCII blanks at their edges, the archive object dropped while members are kept, the archive starting inside a larger file object')
 REAL = ["debian.arfile.ArFile / ArMember (all of it)", "io.BytesIO underneath the shared "
         "file object", "the tmpfs file when the archive is opened by name"]
 STUB = ["the caller-supplied file object: simkit.simfile.SimFile (a journaling BytesIO)"]
